@@ -18,6 +18,7 @@ coefficient sequences), build B is run with read accounting.
            delivered one item beyond, never more
   (5) a constant replaced by a constant stream gives the same output
 """
+import json
 from fractions import Fraction
 
 from ..dataflow import SimSource, SimStall
@@ -26,6 +27,29 @@ from ..kernel import (Property, RunResult, Violation, stable_hash,
 from .util import drop_candidates
 
 HORIZON = 14          # samples inspected of endless readers
+
+
+def close(a, b, scale=1):
+  """ Equal; when a float is involved, within 1e-9 of the largest magnitude
+  seen so far in the run (exact rational arithmetic: nothing overflows). """
+  if not isinstance(a, float) and not isinstance(b, float):
+    return a == b
+  try:
+    fa, fb = Fraction(a), Fraction(b)
+  except (OverflowError, ValueError):      # inf / nan out of float overflow
+    return abs(Fraction(b)) > 10 ** 290 if not isinstance(b, float) else True
+  return abs(fa - fb) <= Fraction(1, 10 ** 9) * max(1, abs(fb), scale)
+
+
+def all_close(xs, ys):
+  if len(xs) != len(ys):
+    return False
+  scale = 1
+  for a, b in zip(xs, ys):
+    scale = max(scale, abs(Fraction(b)))
+    if not close(a, b, scale):
+      return False
+  return True
 
 
 INSPECT = ("is_lti", "is_causal", "numlist", "denlist", "numdict", "dendict",
@@ -129,6 +153,12 @@ class C06(Property):
           how = None    # a bare iterator cannot be copied: no algebra on it
         return ["s", ctr[0]] if how is None else ["s", ctr[0], how]
       c = W.pick("const", [1, -1, 2, 3, -2, 5])
+      if shape == "single" and W.chance("float-constant", 1, 12):
+        # a floating point constant, in particular one very close to +-1
+        # (single filters only: outputs are then compared with a relative
+        # tolerance of 1e-9, the model stays exact)
+        return ["f", W.pick("fconst", [1 - 1e-7, 1 + 1e-7, -(1 + 1e-7),
+                                       1 + 2.0 ** -40, 0.5, -0.75, 1.25])]
       if W.chance("control-stream", 1, 14):
         # a ControlStream object (a Stream subclass) as the coefficient,
         # possibly shaped in place by map() / limit() before it is handed
@@ -281,7 +311,7 @@ class C06(Property):
     xlen = None if W.chance("x-endless", 1, 4) else W.choose("xlen", 11)
     if xlen is None and all(v is None for v in lens.values()):
       xlen = W.choose("xlen", 11)
-    if W.chance("long-run", 1, 300):
+    if W.chance("long-run", 1, 300) and '["f",' not in json.dumps(tree):
       # hundreds of samples: whatever the generated code or the algebra
       # accumulates or switches over to after a warm-up
       lens = dict((k, None if v is None or W.chance("lr-endless", 1, 2)
@@ -497,6 +527,12 @@ class C06(Property):
       if c[0] == "r":
         import itertools
         return Stream(itertools.repeat(Fraction(c[1]), c[2]))
+      if c[0] == "f":
+        if const_as_stream:
+          flip[0] += 1
+          if flip[0] % 2 == 0:
+            return Stream(c[1])
+        return c[1]
       if c[0] == "k":
         cs = self.ls.ControlStream(Fraction(c[1]))
         if c[3]:
@@ -952,7 +988,8 @@ class C06(Property):
         if out_len is not None and n >= out_len:
           raise _Mismatch("end:too-long", "output %d = %r although a reader "
                           "ended after %d items" % (n, y, out_len))
-        if y != ys[n]:
+        if not close(y, ys[n], max([1] + [abs(v) for v in ys[:n + 1]])
+                     if isinstance(y, float) else 1):
           raise _Mismatch("system", "y[%d] = %r, the difference equation on "
                           "the filter's own coefficients gives %r"
                           % (n, y, ys[n]))
@@ -1028,7 +1065,8 @@ class C06(Property):
       except Exception as exc:
         raise _Mismatch("constant-stream-raised", "with constants replaced "
                         "by constant streams the filter raised %r" % (exc,))
-      if got != ys[:len(got)] or len(got) != min(ncheck, len(ys)):
+      if not all_close(got, ys[:len(got)]) or \
+         len(got) != min(ncheck, len(ys)):
         raise _Mismatch("constant-stream", "constants replaced by constant "
                         "streams: output %r, with constants %r"
                         % (got, ys[:ncheck]))
@@ -1083,7 +1121,8 @@ class C06(Property):
                           "coefficient streams through 2-use hubs, both "
                           "called (%s): raised %r" % (sib[0], sib[1], exc))
         rg, rf = (r1, r2) if sib[1] != "f-g" else (r2, r1)
-        if rf != ys[:n_out] or rg != [factor * v for v in ys[:n_out]]:
+        if not all_close(rf, ys[:n_out]) or \
+           not all_close(rg, [factor * v for v in ys[:n_out]]):
           raise _Mismatch("sibling", "f and g = %s(f) sharing their "
                           "coefficient streams through 2-use hubs (%s): f "
                           "gave %r (expected %r), g gave %r"
